@@ -2,6 +2,7 @@
 #include "vh.hpp"
 #include <sys/mman.h>
 #include <errno.h>
+#include <pthread.h>
 #define private public
 #include <nstd/Crypto/Sha256.hpp>
 #undef private
@@ -62,6 +63,70 @@ static void state_out()
   printf(" | ");
   vh::puthex(sha->buffer, sizeof(sha->buffer)); // L-int: the 64-byte block buffer, stale bytes included
   printf("\n");
+}
+
+// ---- op threads: N threads, each with its OWN Sha256 object and its own message, hashing at the same time -----------
+// threads upd  <rounds> <chunk> <m1> .. <mN>     every thread: one Sha256 object of its own; per round update() in pieces
+//                                                 of <chunk> bytes (0 = one call) + finalize() (the object is reused)
+// threads hash <rounds> 0 <m1> .. <mN>           every thread: Sha256::hash(m_i) per round
+// threads hmac <rounds> 0 <k1> <m1> .. <kN> <mN> every thread: Sha256::hmac(k_i, m_i) per round
+// No object, message, key or result buffer is shared between threads.  All threads start together (barrier).  Printed per
+// thread (joined by ','): the digest if all rounds gave the same one, else  <first digest>/<first digest that differs>.
+// Nothing here depends on the schedule unless the library shares state between unrelated hashers.
+struct ThreadJob {
+  int mode; unsigned long rounds; size_t chunk;
+  unsigned char* key; size_t kn; unsigned char* msg; size_t mn;
+  pthread_barrier_t* gate;
+  byte first[Sha256::digestSize], other[Sha256::digestSize]; bool differs;
+};
+
+static void* thread_main(void* arg)
+{
+  ThreadJob* j = (ThreadJob*)arg;
+  Sha256 own;                                                  // private to this thread
+  byte dig[Sha256::digestSize];
+  pthread_barrier_wait(j->gate);
+  for(unsigned long r = 0; r < j->rounds; ++r) {
+    if(j->mode == 0) {
+      if(j->chunk == 0) own.update(j->msg, j->mn);
+      else for(size_t p = 0; p < j->mn; p += j->chunk) own.update(j->msg + p, j->mn - p < j->chunk ? j->mn - p : j->chunk);
+      own.finalize(dig);
+    } else if(j->mode == 1) Sha256::hash(j->msg, j->mn, dig);
+    else Sha256::hmac(j->key, j->kn, j->msg, j->mn, dig);
+    if(r == 0) memcpy(j->first, dig, sizeof(dig));
+    else if(!j->differs && memcmp(j->first, dig, sizeof(dig)) != 0) { memcpy(j->other, dig, sizeof(dig)); j->differs = true; }
+  }
+  return 0;
+}
+
+static void threads_op(vh::Tok& t)
+{
+  enum { maxThreads = 8 };
+  int mode = !strcmp(t.v[1], "upd") ? 0 : !strcmp(t.v[1], "hash") ? 1 : !strcmp(t.v[1], "hmac") ? 2 : -1;
+  int per = mode == 2 ? 2 : 1, n = (t.n - 4) / per;
+  if(mode < 0 || t.n < 4 + per || (t.n - 4) % per || n > maxThreads) { printf("?bad-threads-op"); return; }
+  static ThreadJob job[maxThreads];
+  pthread_t th[maxThreads];
+  pthread_barrier_t gate;
+  pthread_barrier_init(&gate, 0, (unsigned)n);
+  for(int i = 0; i < n; ++i) {
+    ThreadJob& j = job[i];
+    j.mode = mode; j.rounds = strtoul(t.v[2], 0, 10); j.chunk = (size_t)strtoull(t.v[3], 0, 10);
+    j.key = 0; j.kn = 0; j.differs = false; j.gate = &gate;
+    if(mode == 2) j.key = vh::unhex(t.v[4 + 2 * i], j.kn);
+    j.msg = vh::unhex(t.v[4 + per * i + per - 1], j.mn);
+    memset(j.first, 0, sizeof(j.first));
+  }
+  for(int i = 0; i < n; ++i)
+    if(pthread_create(&th[i], 0, thread_main, &job[i]) != 0) { printf("?harness-pthread_create"); exit(3); }
+  for(int i = 0; i < n; ++i) pthread_join(th[i], 0);
+  pthread_barrier_destroy(&gate);
+  for(int i = 0; i < n; ++i) {
+    if(i) printf(",");
+    vh::puthex(job[i].first, sizeof(job[i].first));
+    if(job[i].differs) { printf("/"); vh::puthex(job[i].other, sizeof(job[i].other)); }
+    free(job[i].msg); if(job[i].key) free(job[i].key);
+  }
 }
 
 static void op(long c, long, vh::Tok& t)
@@ -128,6 +193,32 @@ static void op(long c, long, vh::Tok& t)
     Sha256::hmac(k.data, kl ? kn : 0, m.data, ml ? mn : 0, dig);
     fill_free(k); fill_free(m); free(kp); free(mp);
     vh::puthex(dig, sizeof(dig));
+  } else if(!strcmp(t.v[0], "threads")) {
+    threads_op(t);
+  } else if(!strcmp(t.v[0], "hmacalias")) {
+    // hmacalias k|m <off> <key> <message>: hmac() whose result buffer lies INSIDE the key (k) or the message (m)
+    // buffer, at byte offset <off> (a key ratchet k = HMAC(k, label) is  hmacalias k 0).  The arguments of the call are
+    // the bytes the buffers hold when hmac() is called.  The aliased buffer is an exact-size heap block of
+    // max(length, off + 32) bytes; key/message length passed to hmac() is the given one.
+    size_t off = (size_t)strtoull(t.v[2], 0, 10);
+    size_t kn, mn; unsigned char* k0 = vh::unhex(t.v[3], kn); unsigned char* m0 = vh::unhex(t.v[4], mn);
+    bool onKey = t.v[1][0] == 'k';
+    size_t an = onKey ? kn : mn, need = off + Sha256::digestSize > an ? off + Sha256::digestSize : an;
+    unsigned char* a = (unsigned char*)calloc(1, need);
+    memcpy(a, onKey ? k0 : m0, an);
+    Sha256::hmac(onKey ? a : k0, kn, onKey ? m0 : a, mn, (byte (&)[Sha256::digestSize])*(a + off));
+    vh::puthex(a + off, Sha256::digestSize);
+    free(a); free(k0); free(m0);
+  } else if(!strcmp(t.v[0], "hashalias")) {
+    // hashalias <off> <message>: hash() whose result buffer lies inside the message buffer at offset <off>
+    size_t off = (size_t)strtoull(t.v[1], 0, 10);
+    size_t mn; unsigned char* m0 = vh::unhex(t.v[2], mn);
+    size_t need = off + Sha256::digestSize > mn ? off + Sha256::digestSize : mn;
+    unsigned char* a = (unsigned char*)calloc(1, need);
+    memcpy(a, m0, mn);
+    Sha256::hash(a, mn, (byte (&)[Sha256::digestSize])*(a + off));
+    vh::puthex(a + off, Sha256::digestSize);
+    free(a); free(m0);
   } else {
     printf("?unknown-op");
   }
